@@ -1105,6 +1105,12 @@ func RunSliceExpr(ctx *Task, expr *ast.SliceExpr) *errchain.PlError {
 			return NewRunError(ctx, errReg.Error(), expr.Step.StartPos())
 		}
 	}
+	// a bound whose value is nil counts as omitted, as in the v1 interpreter
+	for _, b := range []*V{&start, &end, &step} {
+		if b.T == ast.Nil {
+			*b = V{}
+		}
+	}
 	var length int
 	switch obj.T { //nolint:exhaustive
 	case ast.String:
